@@ -16,7 +16,7 @@ from common import frac, rstr, rparse, close, CheckBroken
 ID = "C20"
 LEAN_TARGETS = ["Strengths.Props.C20"]
 PROP_FILES = ["Strengths/Props/C20.lean"]
-GEN_GROUPS = ["Validation", "IndexPy", "Network", "Units", "EngineCpp"]
+GEN_GROUPS = ["Validation", "IndexPy", "Network", "Units", "EngineCpp", "CoarsePy"]
 RULE = ("valid nested script dictionaries (1-3 species, 0-3 reactions, 1-3 environments, grid w,h,d in 1..3 or graph of 1-6 nodes, "
         "units declared at random levels, random aliases, scalar / text / per-environment quantities) x one injected fault "
         "(class x location); exhaustive positional sweep: every linear index in [-size-2, ns*size+2] and every triple in "
@@ -866,9 +866,8 @@ def run(ctx):
             if ("error" in r) != (st == "error"):
                 ctx.disagree("validate:" + cls, case, st if st == "error" else "accepted", r)
 
-    ctx.notes.append("the coarse-graining map rules are proved for the length rule only (index_map_wrong_length_rejected) plus kernel-evaluated "
-                     "instances of the other four; they are otherwise tied by the correspondence (op validate/index_map) and the independent "
-                     "Python predicate spec_index_map_invalid")
+    ctx.notes.append("coarse-graining maps: the model is the coarse-graining builder's checkIndexMap (Model/Coarsegrain, group CoarsePy); "
+                     "index_map_rejects_iff carries his hypothesis 'no cell environment equals -2' (the code's internal unset marker)")
     ctx.notes.append("documented-but-refused values (not C20's concern, recorded): init_state_processing='floor' is documented and accepted by "
                      "the engine but refused by the Python setter; the documented system key 'chstt_map' is refused (the code's key is 'chemostats')")
     # ---------------------------------------------------------------- 2. setters called directly with invalid values
@@ -885,10 +884,7 @@ def run(ctx):
     for i in range(ctx.n(600, 10000)):
         shape, im, env, fault = gen_index_map(rng)
         meta.append((shape, im, env, fault))
-        if all(type(v) is int for v in im):
-            ops.append({"op": "validate", "kind": "index_map", "im": im, "env": env})
-        else:
-            ops.append({"op": "validate", "kind": "policy", "v": "bogus"})     # non-integer entries: the model has no such value; always an error
+        ops.append({"op": "validate", "kind": "index_map", "im": [v if type(v) is int else None for v in im], "env": env})
     res = ctx.model.run(ops)
     for (shape, im, env, fault), r in zip(meta, res):
         got = run_index_map(shape, im, env)
